@@ -325,6 +325,7 @@ def run(ctx):
     else:
         feat = C.draw_features(ctx)
         feat["tiny_offsets"] = False  # the exporters print constants with 4 decimals (their stated precision)
+        feat["implicit_parent_types"] = cfg.draw(4) == 0  # supertypes introduced only by being used as a parent
         feat["cond_numeric"] = cfg.chance(1, 3)
         ctx.profile = "simplified-conditions" if feat["cond_numeric"] else "clean"
         nested = cfg.draw(6)
